@@ -118,7 +118,10 @@ impl<M> OutputStream<M> {
         &mut self.entry
     }
     pub fn take_entry(&mut self) -> LogEntry {
-        std::mem::take(&mut self.entry)
+        // The entry that follows must be a new one (`LogEntry::new()` stamps
+        // it with the current time); `LogEntry::default()` carries the Unix
+        // epoch as its timestamp.
+        std::mem::replace(&mut self.entry, LogEntry::new())
     }
 
     pub fn print(&self, msg: impl AsRef<str>) {
